@@ -116,6 +116,18 @@ def exempt : List (Loc × String) := [
   (F.«rtsp.BaseOutSession.videoRtcpChannel», "signalling"),
   (F.«rtsp.BaseOutSession.videoRtpChannel», "signalling"),
   (F.«rtsp.BaseOutSession.videoRtpConn», "signalling"),
+  -- rtsp client handshake state (the struct has a mutex since the conn fix): written by the one handshake goroutine
+  -- of doContext, read by it, and after the errChan hand-over by the goroutine that called Start (RunLoop, keep-alive).
+  -- `conn` is written under connMu and read under it by dispose, the only reader that can overlap the handshake
+  (F.«rtsp.ClientCommandSession.channel», "signalling"),
+  (F.«rtsp.ClientCommandSession.conn», "signalling"),
+  (F.«rtsp.ClientCommandSession.cseq», "signalling"),
+  (F.«rtsp.ClientCommandSession.methodGetParameterSupported», "signalling"),
+  (F.«rtsp.ClientCommandSession.option», "signalling"),
+  (F.«rtsp.ClientCommandSession.rawUrl», "signalling"),
+  (F.«rtsp.ClientCommandSession.sdpCtx», "signalling"),
+  (F.«rtsp.ClientCommandSession.sessionId», "signalling"),
+  (F.«rtsp.ClientCommandSession.urlCtx», "signalling"),
   (F.«rtsp.ServerCommandSession.describeSeq», "publish"),
   (F.«rtsp.ServerCommandSession.pubSession», "own"),
   (F.«rtsp.ServerCommandSession.subSession», "own")
